@@ -722,7 +722,7 @@ def mutate(ctx: Ctx, h: Hier) -> Tuple[Hier, str]:
     """One edit that moves a valid hierarchy towards (or across) the acceptance boundary."""
     rng = ctx.rng
     h = json.loads(json.dumps(h))
-    kind = rng.choice(["order", "order-noprops", "order-noprops", "drop-super", "drop-assign", "prop-clash", "method-clash", "prop-in-ancestor", "method-in-ancestor", "cycle", "wmt", "no-ctor", "inv-clash"])
+    kind = rng.choice(["order", "order-noprops", "order-noprops", "drop-super", "drop-assign", "prop-clash", "method-clash", "prop-in-ancestor", "method-in-ancestor", "cycle", "wmt", "no-ctor", "inv-clash", "dup-assign", "dup-super"])
     by = {c["name"]: c for c in h}
     anc = closure(h)
     with_anc = [c for c in h if anc[c["name"]]]
@@ -746,6 +746,15 @@ def mutate(ctx: Ctx, h: Hier) -> Tuple[Hier, str]:
         if cand:
             c = rng.choice(cand)
             c["ctor"].remove(rng.choice([s for s in c["ctor"] if s[0] == "A"]))
+    elif kind in ("dup-assign", "dup-super"):
+        # a statement written twice: a repeated own assignment must be refused (former finding C05-F1), a repeated
+        # super call is harmless because the in-lining skips the statements it has seen
+        k_ = "A" if kind == "dup-assign" else "S"
+        cand = [c for c in h if any(k == k_ for k, _ in c["ctor"])]
+        if cand:
+            c = rng.choice(cand)
+            st = rng.choice([s_ for s_ in c["ctor"] if s_[0] == k_])
+            c["ctor"].insert(rng.randint(0, len(c["ctor"])), list(st))
     elif kind in ("prop-clash", "method-clash", "inv-clash"):
         key = {"prop-clash": "props", "method-clash": "methods", "inv-clash": "invs"}[kind]
         src = [c for c in h if c[key]]
@@ -857,7 +866,7 @@ def boundary(ctx: Ctx) -> Iterator[Tuple[Hier, str]]:
     yield canonical_ctors([A(wmt=True, ser="pos"), B([], ser="bare"), mk_class("C", ["B", "A"], ser="bare"), mk_class("D", ["C"])]), "boundary"
     yield canonical_ctors([A(wmt=False), B(["A"], ser="bare"), mk_class("C", ["B"], wmt=True)]), "boundary"
     yield canonical_ctors([A(wmt=True), B(["A"], ser="bare"), mk_class("C", ["B"], wmt=False, ser="pos")]), "boundary"
-    # known finding C05-F1: the modeller assigns an own property twice; accepted, both assignments survive
+    # former finding C05-F1 (repaired): the modeller assigns an own property twice; must be refused (err construction)
     h = canonical_ctors([A(), mk_class("B", ["A"])])
     h[0]["ctor"].append(["A", "a_p0"])
     yield h, "boundary"
